@@ -90,7 +90,7 @@ def design_level(thorough, res):
 
 
 def scripts_from_tlc(n_walks, n_pick, first_id=1, cfg="Timing_sim.cfg"):
-    lazy = cfg != "Timing_sim.cfg"
+    lazy = cfg == "Timing_simlazy.cfg"
     r = vlib.tlc("TimingMC", cfg, workers=1, simulate="num=%d" % n_walks, depth=3000, seed_=vlib.seed(),
                  deadlock=False, timeout=900, heap="2g")
     if r.error or r.violation:
@@ -229,8 +229,12 @@ def run(tier, v):
     try:
         b = vlib.harness_build()
         d = vlib.scratch("c04-timing-")
-        n_scripts, n_lazy, n_random, n_walks, n_confs = (200, 100, 160, 3000, 60) if thorough else (24, 12, 28, 500, 12)
+        n_scripts, n_lazy, n_random, n_walks, n_confs = (160, 100, 160, 3000, 60) if thorough else (24, 12, 28, 500, 12)
         scripts, nwalks = scripts_from_tlc(n_walks, n_scripts)
+        if thorough:    # longer scripts (12 tokens, up to 11 s)
+            s12, w12 = scripts_from_tlc(n_walks, 60, first_id=len(scripts) + 1, cfg="Timing_sim12.cfg")
+            scripts += s12
+            nwalks += w12
         lscripts, lwalks = scripts_from_tlc(n_walks, n_lazy, first_id=len(scripts) + 1, cfg="Timing_simlazy.cfg")
         scripts += lscripts
         nwalks += lwalks
